@@ -1,21 +1,159 @@
 package harness
 
-// Fine mode (DESIGN §2.4): preemption at shimmed synchronisation operations.
+import (
+	"fmt"
+	"runtime"
+	"sort"
+	"strings"
+)
+
+// Fine mode (DESIGN §2.4): inside a window of an execution every shimmed
+// synchronisation operation (sync.Mutex/RWMutex/WaitGroup, sync/atomic) of the library
+// is a scheduling point. Exactly one goroutine runs between two points; the default is
+// to keep running the goroutine that ran last, any other choice is a preemption (one
+// deviation).
 
 type parkedG struct {
-	gid  int
+	name string
 	kind string
 	ch   chan struct{}
+}
+
+// fineLabel names the calling goroutine after the outermost library function on its
+// stack (the function the goroutine was started for), which is stable across runs.
+func fineLabel() string {
+	var pcs [64]uintptr
+	n := runtime.Callers(3, pcs[:])
+	frames := runtime.CallersFrames(pcs[:n])
+	outer := ""
+	for {
+		f, more := frames.Next()
+		if i := strings.LastIndex(f.Function, leaderPkg); i >= 0 {
+			outer = f.Function[i+len(leaderPkg):]
+		} else if strings.Contains(f.Function, "harness.(*World).callAPI") {
+			outer = "api"
+		} else if strings.Contains(f.Function, "harness.(*World).dispatcher") {
+			outer = "dispatcher"
+		}
+		if !more {
+			break
+		}
+	}
+	outer = strings.TrimPrefix(outer, "(*kvElection).")
+	outer = strings.TrimPrefix(outer, "(*disconnectHandler).")
+	for _, suf := range []string{".func", ".gowrap"} {
+		if i := strings.Index(outer, suf); i > 0 {
+			// keep the enclosing function and the closure index: becomeLeader.func1 (heartbeat) vs func2 (validation)
+			rest := outer[i:]
+			outer = outer[:i] + strings.SplitN(rest, ".", 3)[1]
+			break
+		}
+	}
+	if outer == "" {
+		outer = "other"
+	}
+	return outer
 }
 
 func (w *World) point(kind string, obj any) {
 	if !w.fineOn || w.harnessBusy || w.closing {
 		return
 	}
+	gid := curGID()
+	if w.muOwner.Load() == int64(gid) {
+		return // harness code calling into the library while holding the harness lock
+	}
+	w.mu.Lock()
+	if !w.fineOn || w.closing || w.helpers[gid] {
+		w.mu.Unlock()
+		return
+	}
+	name, ok := w.gnames[gid]
+	if !ok {
+		lab := fineLabel()
+		w.glabels[lab]++
+		name = fmt.Sprintf("%s#%d", lab, w.glabels[lab])
+		w.gnames[gid] = name
+	}
+	w.finePts++
+	if w.scn.FinePts > 0 && w.finePts > w.scn.FinePts {
+		// window exhausted: stop parking, release everybody
+		w.fineOn = false
+		ps := w.parked
+		w.parked = nil
+		w.mu.Unlock()
+		for _, p := range ps {
+			close(p.ch)
+		}
+		return
+	}
+	pg := &parkedG{name: name, kind: kind, ch: make(chan struct{})}
+	w.parked = append(w.parked, pg)
+	w.mu.Unlock()
+	w.signal()
+	<-pg.ch
 }
 
-func (w *World) fineEnabled(def, alts []Event) []Event { return append(def, alts...) }
+// fineEnabled: resuming a parked goroutine comes first; the coarse events remain
+// available (answering an op while a goroutine could continue is a preemption too).
+func (w *World) fineEnabled(def, alts []Event) []Event {
+	ps := append([]*parkedG(nil), w.parked...)
+	sort.SliceStable(ps, func(i, j int) bool { return ps[i].name < ps[j].name })
+	var runs []Event
+	var lastEv *Event
+	for _, pg := range ps {
+		pg := pg
+		ev := Event{Name: "run:" + pg.name + "@" + pg.kind, tgt: "", run: func() {
+			for i, q := range w.parked {
+				if q == pg {
+					w.parked = append(w.parked[:i:i], w.parked[i+1:]...)
+					break
+				}
+			}
+			w.lastRun = pg.name
+			close(pg.ch)
+		}}
+		if pg.name == w.lastRun {
+			e := ev
+			lastEv = &e
+		} else {
+			runs = append(runs, ev)
+		}
+	}
+	var out []Event
+	if lastEv != nil {
+		out = append(out, *lastEv)
+	}
+	out = append(out, runs...)
+	out = append(out, def...)
+	out = append(out, alts...)
+	if len(out) == 0 || len(ps) == 0 {
+		out = append(out, Event{Name: "time"})
+	}
+	return out
+}
 
-func (w *World) maybeFine(idx int) {}
+// maybeFine switches fine mode on when the designated script item fires.
+func (w *World) maybeFine(idx int) {
+	if w.scn.FineFrom == "" || w.fineUsed {
+		return
+	}
+	it := &w.scn.Script[idx]
+	if it.name(idx) == w.scn.FineFrom || fmt.Sprintf("%s:%s", it.Do, it.Inst) == w.scn.FineFrom {
+		w.fineOn = true
+		w.fineUsed = true
+		w.gnames = map[int]string{}
+		w.glabels = map[string]int{}
+		w.ev(Ev{K: "fine.on", S: it.name(idx)})
+	}
+}
 
-func (w *World) releaseParked() {}
+func (w *World) releaseParked() {
+	w.mu.Lock()
+	ps := w.parked
+	w.parked = nil
+	w.mu.Unlock()
+	for _, p := range ps {
+		close(p.ch)
+	}
+}
